@@ -244,6 +244,15 @@ twin!(#[fastrace::trace()] async fn adrops_p / adrops_t (a: u32, y: u32) -> u32 
 twin!(#[fastrace::trace()] async fn ainner_p / ainner_t (a: u32, y: u32) -> u32 { here!(); let blk = async { YieldN(y).await; a * 2 }; let f = |x: u32| async move { YieldN(1).await; x + 1 }; let v = blk.await; f(v).await });
 twin!(#[fastrace::trace()] async fn aimpl_p / aimpl_t (a: u32, y: u32, it: impl Iterator<Item = u32>) -> Vec<u32> { here!(); let mut v = Vec::new(); for x in it { YieldN(y.min(1)).await; v.push(x + a); } v });
 twin!(#[fastrace::trace(enter_on_poll = true)] async fn aeop_q_p / aeop_q_t (a: u32, y: u32) -> Result<u32, String> { here!(); YieldN(y).await; if a == 2 { return Err("eop-err".into()); } let r: Result<u32, String> = Ok(a); Ok(r? + 1) });
+// bodies that are a single tail `.await`: the awaited expression (its arguments, the call that builds
+// the future) is evaluated inside the function's span like everything else
+async fn add_later(v: u32, y: u32) -> u32 {
+    YieldN(y).await;
+    v + 1
+}
+twin!(#[fastrace::trace(name = "atail")] async fn atail_nested_p / atail_nested_t (a: u32, y: u32) -> u32 { add_later(value_t(a), y).await });
+twin!(#[fastrace::trace(name = "atail2", enter_on_poll = true)] async fn atail2_nested_p / atail2_nested_t (a: u32, y: u32) -> u32 { add_later({ log("arg"); value_t(a) + value_t(a + 1) }, y).await });
+twin!(#[fastrace::trace(name = "atail3")] async fn atail3_nested_p / atail3_nested_t (a: u32, y: u32) -> u32 { boxed_move_t(value_t(a), y).await });
 
 // hand-written functions that return a boxed future (the shape the async-trait detection looks for)
 type BoxFut<T> = Pin<Box<dyn Future<Output = T>>>;
@@ -675,6 +684,9 @@ fn cases() -> Vec<Case> {
         }
     );
     async_case!(c, "G::aget", None, no_props, false, |a, y| async move { G { t: "g" }.aget_p(a, y, 7u32).await }, async move { G { t: "g" }.aget_t(a, y, 7u32).await });
+    async_case!(c, "atail_nested", Some("atail"), no_props, false, |a, y| atail_nested_p(a, y), atail_nested_t(a, y));
+    async_case!(c, "atail2_nested", Some("atail2"), no_props, true, |a, y| atail2_nested_p(a, y), atail2_nested_t(a, y));
+    async_case!(c, "atail3_nested", Some("atail3"), no_props, false, |a, y| atail3_nested_p(a, y), atail3_nested_t(a, y));
     // cancellation: a future polled once or twice and then dropped is still one call
     cancel_case!(c, "avalue", None, no_props, false, |a, y| avalue_p(a, y), avalue_t(a, y));
     cancel_case!(c, "adrops", None, no_props, false, |a, y| adrops_p(a, y), adrops_t(a, y));
